@@ -3165,13 +3165,16 @@ theorem checkPath_ok (sent : List ApiAttr) (stored : List Attribute) (hr : ∀ x
     * API cases: the scalar fields are within their protobuf widths.
     * `grpc` (AddPath then ListPath): no attribute that `local_path` consumes or drops is sent
       (NEXT_HOP / raw MP_REACH, ORIGINATOR_ID, CLUSTER_LIST, raw MP_UNREACH) — ListPath does not show
-      them: the open findings `listed-path-lacks-*`. -/
+      them: the open findings `listed-path-lacks-*`; and no VRP is installed (the validation state shown
+      for the path is RFC 6811's and property C12's subject: here it is only cross-checked on the real
+      handlers against `Spec.rpkiExpected`). -/
 def caseOk : Case → Prop
   | .attrWire code flags _ => ∀ f, canonicalFlags code = some f → flags = f
   | .attrApi x => x.inRange = true
   | .nlriWire _ bs => AllB bs
   | .nlriApi x => x.inRange = true
-  | .grpc x attrs => x.inRange = true ∧ (∀ a ∈ attrs, a.inRange = true) ∧ ∀ a ∈ attrs, kept a
+  | .grpc x attrs vrps =>
+      x.inRange = true ∧ (∀ a ∈ attrs, a.inRange = true) ∧ (∀ a ∈ attrs, kept a) ∧ vrps = []
   | .explore _ => True
 
 /-- **master theorem**: the reference checker written from the property text accepts every run of the
@@ -3230,8 +3233,8 @@ theorem check_run_ok (c : Case) (h : caseOk c) : Spec.check c (run current c) = 
           simp only [nlriObs, nlri_listed_same x n h hst h0, if_true]
       | err => rfl
       | panic => exact absurd hf (netFromApi_no_panic x)
-  | grpc x attrs =>
-      obtain ⟨hx, hr, hk⟩ := h
+  | grpc x attrs vrps =>
+      obtain ⟨hx, hr, hk, rfl⟩ := h
       simp only [run]
       cases hf : netFromApi current x with
       | ok n =>
@@ -3244,7 +3247,11 @@ theorem check_run_ok (c : Case) (h : caseOk c) : Spec.check c (run current c) = 
               · rename_i hm
                 simp only [List.all_eq_true] at hm
                 obtain ⟨ys, hys, hcp⟩ := checkPath_ok attrs stored hr hk hl hm
-                simp only [hys, Spec.check, nlri_listed_same x n hx hst h0, if_true, hcp]
+                have hv : rpkiShown [] n stored = .ok none := by
+                  unfold rpkiShown; cases n <;> simp
+                simp only [hys, hv, Spec.check, nlri_listed_same x n hx hst h0, if_true, hcp, seq]
+                unfold checkRpki
+                split <;> simp_all
               · rfl
           | err => rfl
           | panic =>
